@@ -67,6 +67,8 @@ def case_projection(ctx, rng, idx):
         return
     unmutated(ctx, "Projection", before, [A])
     Q, oQ = P.Q, P.oQ
+    ctx.hold("projection-identities", "Projection.Q", Q)
+    ctx.hold("projection-identities", "Projection.oQ", oQ)
     I = np.eye(m)
     U = ortho_basis(A)
     ctx.within("projection-identities", fro(Q - herm(Q)), tol, "hermitian", d)
